@@ -175,6 +175,11 @@ pub struct Cfg {
     /// operation install this policy (`set_policy`) and repeat the operation once (C03 only)
     #[serde(default)]
     pub lift: Option<PolicySpec>,
+    /// a growing input: the read call with this index returns Ok(0) once although more data
+    /// follow (`Read` allows that); later calls deliver the rest (C20 only: the end, once
+    /// reported, stays reported)
+    #[serde(default)]
+    pub pause: Option<usize>,
 }
 
 impl Cfg {
@@ -186,7 +191,7 @@ impl Cfg {
             cuts: vec![],
             faults: vec![],
             intr_burst: None,
-            lift: None,
+            lift: None, pause: None,
         }
     }
 }
